@@ -487,6 +487,16 @@ def min_(a, b):
 _ORACLE = [None]  # set by pyvc.explore
 
 
+_E_AS_FRACTION = frac_of_float(math.e)
+
+
+def exponent_of_float(o: float) -> Fraction:
+    """an exponent that is the double nearest to a small rational (1/3, 1.5, 0.2 ...) is read as that rational (float-constant
+    rule for exponents: `x ** (1 / 3)` means the cube root)"""
+    snap = Fraction(o).limit_denominator(64)
+    return snap if float(snap) == o else frac_of_float(o)
+
+
 def set_oracle(o):
     old = _ORACLE[0]
     _ORACLE[0] = o
@@ -566,16 +576,20 @@ class Sym:
     def __pow__(self, o):
         if isinstance(o, Sym):
             if o.n.op != "const":
+                if self.n.op == "const" and self.n.val == _E_AS_FRACTION:
+                    return Sym(fn("exp", o.n))  # math.e ** x is read as exp(x) (float-constant rule: the literal names Euler's number)
                 raise Unmodelled("symbolic exponent")
             o = o.n.val
         if isinstance(o, float):
-            o = frac_of_float(o)
+            o = exponent_of_float(o)
         return Sym(powr(self.n, Fraction(o)))
 
     def __rpow__(self, o):
-        # concrete ** symbolic: only exp-like; not needed so far
+        # concrete ** symbolic: only exp-like
         if self.n.op == "const":
             return Sym(powr(node_of(o), self.n.val))
+        if isinstance(o, float) and o == math.e:
+            return Sym(fn("exp", self.n))
         raise Unmodelled("symbolic exponent")
 
     def __neg__(self):
